@@ -32,6 +32,8 @@ func unitChecks() []unitCheck {
 		{"measure-blocks", unitMeasureBlocks},
 		{"stream-blocks", unitStreamBlocks},
 		{"sidx-blocks", unitSidxBlocks},
+		{"keywindow", unitKeyWindow},
+		{"sidx-primary", unitSidxPrimary},
 	}
 }
 
